@@ -217,6 +217,60 @@ End Spec.
 
 Definition afresh (d : option bytes) : anode := mkA [] d 0.
 
+
+(** ---------- several nodes related by Copy / UpdateNodeLink ----------
+    A history over a growing family of nodes: node 0 is NodeWithData(d0), [MFork i]
+    appends n_i.Copy(), [MForkUpdate i ..] appends n_i.UpdateNodeLink(..) (both leave
+    n_i alone), [MOp i o] applies [o] to node i.  The family semantics is generic in
+    the single-node step, so the cache model and the specification share it: in both,
+    what a node answers depends only on the operations applied to THAT node (and to
+    the node it was forked from, before the fork). *)
+Inductive mop :=
+| MOp (i : nat) (o : op)
+| MFork (i : nat)
+| MForkUpdate (i : nat) (name : bytes) (size : Z) (cid : bytes).
+
+Fixpoint upd_nth {A} (i : nat) (x : A) (l : list A) : list A :=
+  match l, i with
+  | [], _ => []
+  | _ :: r, O => x :: r
+  | y :: r, S j => y :: upd_nth j x r
+  end.
+
+Section Family.
+Context {S : Type}.
+Variable stp : S -> op -> S * ob.
+
+Definition gmstep (st : list S) (m : mop) : list S * ob :=
+  match m with
+  | MOp i o =>
+      match nth_error st i with
+      | Some s => let (s', b) := stp s o in (upd_nth i s' st, b)
+      | None => (st, BErr)
+      end
+  | MFork i =>
+      match nth_error st i with
+      | Some s => let (s', b) := stp s OCopy in (st ++ [s'], b)
+      | None => (st, BErr)
+      end
+  | MForkUpdate i name size cid =>
+      match nth_error st i with
+      | Some s =>
+          match stp s (OUpdate name size cid) with
+          | (s', BOk) => (st ++ [s'], BOk)
+          | (_, b) => (st, b)
+          end
+      | None => (st, BErr)
+      end
+  end.
+
+Fixpoint gmrun (st : list S) (ms : list mop) : list S * list ob :=
+  match ms with
+  | [] => (st, [])
+  | m :: r => let (st', b) := gmstep st m in let (st'', bs) := gmrun st' r in (st'', b :: bs)
+  end.
+End Family.
+
 (** ---------- correspondence ---------- *)
 Definition obytes_eqb := option_eqb bytes_eqb.
 Definition ob_eqb (a b : ob) : bool :=
@@ -247,10 +301,12 @@ Fixpoint hlookup (tab : list (bytes * list (Z * Z))) (b : Z) (bs : bytes) : Z :=
 
 (** [CRun d0 tab ops obs]: the ops were applied to NodeWithData(d0) on the real
     code, [obs] is what each call answered.
-    [CDec bs r]: DecodeProtobuf(bs) on the real code gave [r] (data, links) or failed. *)
+    [CDec bs r]: DecodeProtobuf(bs) on the real code gave [r] (data, links) or failed.
+    [CMulti d0 tab ops obs]: the family history [ops] was run on real ProtoNodes. *)
 Inductive case :=
 | CRun (d0 : option bytes) (tab : list (bytes * list (Z * Z))) (ops : list op) (obs : list ob)
-| CDec (bs : bytes) (r : option (option bytes * list link)).
+| CDec (bs : bytes) (r : option (option bytes * list link))
+| CMulti (d0 : option bytes) (tab : list (bytes * list (Z * Z))) (ops : list mop) (obs : list ob).
 
 Definition check_case (c : case) : verdict :=
   match c with
@@ -265,4 +321,13 @@ Definition check_case (c : case) : verdict :=
       else VSpecFail
   | CDec bs r =>
       verdict_of (ob_eqb (BDecode (decode bs)) (BDecode r)) true
+  | CMulti d0 tab ops obs =>
+      let H := hlookup tab in
+      let sobs := snd (gmrun (astep H) [afresh d0] ops) in
+      let off := snd (gmrun (step flags_off H) [fresh d0] ops) in
+      let on := snd (gmrun (step flags_on H) [fresh d0] ops) in
+      let eq := list_eqb ob_eqb obs in
+      if eq sobs then (if eq off || eq on then VOk else VModelMismatch)
+      else if eq on && list_eqb ob_eqb off sobs then VKnown 1
+      else VSpecFail
   end.
